@@ -102,7 +102,9 @@ Shape(s) == (IF Len(s.exports) = 0 THEN (IF s.variant = "initdecl" THEN "declare
             \o ":" \o s.kind \o (IF s.variant = "samemodule" THEN ":same-module-name" ELSE IF s.variant = "suffixalias" THEN ":name-is-suffix-of-aliased-name" ELSE IF s.variant = "stdlibname" THEN ":module-named-like-imported-stdlib-module" ELSE IF s.variant = "exccls" THEN ":exception-class" ELSE IF s.variant = "pkgmodreexp" THEN ":package-file-re-exported-as-module" ELSE IF s.variant = "privreexp" THEN ":re-exported-by-private-package" ELSE "")
 (* members a class declaration must show, each exactly once (the private helper never) *)
 OwnMember(t) == IF t = 1 THEN "m_d1" ELSE "m_d2"
-ExpectedMembers(s, t) == IF s.kind # "class" THEN {} ELSE { OwnMember(t) } \cup (IF s.variant = "sharedbase" THEN { "m_shared", "Options" } ELSE {})     \* Options: public nested class of the private base
+ExpectedMembers(s, t) == IF s.kind # "class" THEN {} ELSE { OwnMember(t) } \cup (IF s.variant = "sharedbase" THEN { "m_shared", "Options", IF t = 1 THEN "Options.opt_m" ELSE "Options.own_opt" } ELSE {})
+   \* Options: public nested class of the private base (with a method opt_m); class 2 defines a nested class Options of its own (with own_opt);
+   \* members of nested classes are reported as Nested.member
 MCount(ms, m) == Cardinality({ j \in 1..Len(ms) : ms[j] = m })
 JudgeMembers(s, d) ==
   IF s.kind # "class" \/ Len(d.occs) # 1 \/ ~PublicDecl(s, d.tgt) THEN {}
@@ -113,6 +115,8 @@ JudgeMembers(s, d) ==
               : x \in { 1 } \cap { IF d.occs[1].privmembers = << >> THEN 0 ELSE 1 } }
        \cup { [property |-> "C03", clause |-> "ExactlyOnce", sig |-> "u2:member-duplicated:" \o s.variant \o ":other", expected |-> "1", observed |-> ms[j]]
               : j \in { j \in 1..Len(ms) : MCount(ms, ms[j]) > 1 /\ ms[j] \notin ExpectedMembers(s, d.tgt) } }
+       \cup { [property |-> "C17", clause |-> "Precedence", sig |-> "u2:inherited-nested-class-member-beside-own:" \o s.variant, expected |-> "own definition only", observed |-> ms[j]]
+              : j \in { j \in 1..Len(ms) : s.variant = "sharedbase" /\ d.tgt = 2 /\ ms[j] = "Options.opt_m" } }
 Judge(s, obs) ==
   UNION { JudgeMembers(s, obs.decls[j]) : j \in 1..Len(obs.decls) } \cup
   UNION { LET d == obs.decls[j]
